@@ -69,6 +69,21 @@ Proof.
 Qed.
 Print Assumptions C07_oversize.
 
+(* promptness: as soon as the reads so far (cs1) cover the offending header --
+   with none, some or all of its body (t) -- the connection has failed and its
+   buffer is dropped; later reads (cs2: the oversize body, later frames) change
+   nothing. So the body is neither waited for nor buffered. *)
+Theorem C07_oversize_prompt : forall max fs hdr h total,
+  0 <= max < W32 -> max <= messageMaxLen + 65805 ->
+  (forall f, In f fs -> frame_wf f = true /\ frame_size f <= max) ->
+  bytes_ok hdr = true -> declared hdr = Some (h, total) -> h <= blen hdr -> max < total ->
+  exists e, forall t (cs1 cs2 : list (list Z)),
+    concat cs1 = concat (map encode_frame fs) ++ hdr ++ t ->
+    fold_left (feed max) cs1 init = MkState [] (map item_of fs) (Failed e) /\
+    fold_left (feed max) (cs1 ++ cs2) init = MkState [] (map item_of fs) (Failed e).
+Proof. exact oversize_prompt. Qed.
+Print Assumptions C07_oversize_prompt.
+
 (* the same for an oversize message produced by a conforming encoder: it is
    refused at its header, whatever part of its body and whatever else follows *)
 Theorem C07_oversize_message : forall max fs g,
